@@ -2355,7 +2355,8 @@ public:
         return sbe_size().value();
     }
 
-    //! @brief Sets `numInGroup` to `count`
+    //! @brief Sets `numInGroup` to `count`. Not available if `Byte` is `const`
+    template<typename T = void, typename = enable_if_writable_t<Byte, T>>
     SBEPP_CPP20_CONSTEXPR void resize(const size_type count) const noexcept
     {
         (*this)(get_header_tag{}).numInGroup(count);
@@ -2427,8 +2428,9 @@ public:
         return *(--end());
     }
 
-    //! @brief Resizes to `0`
+    //! @brief Resizes to `0`. Not available if `Byte` is `const`
     //! @post `size() == 0`
+    template<typename T = void, typename = enable_if_writable_t<Byte, T>>
     SBEPP_CPP14_CONSTEXPR void clear() const noexcept
     {
         resize(0);
@@ -2602,7 +2604,8 @@ public:
         return sbe_size().value();
     }
 
-    //! @brief Sets `numInGroup` to `count`
+    //! @brief Sets `numInGroup` to `count`. Not available if `Byte` is `const`
+    template<typename T = void, typename = enable_if_writable_t<Byte, T>>
     SBEPP_CPP20_CONSTEXPR void resize(const size_type count) const noexcept
     {
         (*this)(get_header_tag{}).numInGroup(count);
@@ -2649,8 +2652,9 @@ public:
         return *begin();
     }
 
-    //! @brief Resizes to `0`
+    //! @brief Resizes to `0`. Not available if `Byte` is `const`
     //! @post `size() == 0`
+    template<typename T = void, typename = enable_if_writable_t<Byte, T>>
     SBEPP_CPP14_CONSTEXPR void clear() const noexcept
     {
         resize(0);
